@@ -10,6 +10,11 @@ RecCause(r) == Judge(r.fn, r.args, r.k, r.v)
 Undef(r) == ~Decided(r.fn, r.args)
 \* not a clause of the doc comment: counted, never a verdict
 Diag(r) == r.fn = "Abbreviate" /\ r.k = "ok" /\ ~AbbrFitsUnchanged(r.args[1], r.args[2], r.v)
+\* diagnostic (model_drift): the real result differs from what the transcription of the algorithm computes
+Drift(r) == r.k = "ok" /\ CASE r.fn = "QueryEscape" -> r.v # QEImpl(r.args[1])
+                             [] r.fn = "Abbreviate" -> r.v # AbbrImpl(r.args[1], r.args[2])
+                             [] r.fn = "ToKebab" -> IsAscii(r.args[1]) /\ r.v # KebabImpl(r.args[1])
+                             [] OTHER -> FALSE
 \* root cause: which function, which clause; for the shared white-space table the byte that indexes outside it
 Detail(r, c) == IF c = "hostpanic" /\ r.fn = "MarshalJSONIndent" /\ (\E i \in 1..Len(r.args[2] \o r.args[3]) : (r.args[2] \o r.args[3])[i] = 255)
                 THEN "byte-255-in-prefix-or-indent"
@@ -20,12 +25,13 @@ Sig(r, c) == [fam |-> "builtins", fn |-> r.fn, cause |-> c, detail |-> Detail(r,
 
 (* ---- record walk: the skeleton of spec/lib2/Trace_HTMLEscape.tla, keeping the first KeepPerSig records of EVERY
         distinct signature (bounded, so not quadratic), as spec/filesfs/Trace_FilesFS.tla does ---- *)
-VARIABLES l, nbad, nskip, ndiag, bad, cnt
+VARIABLES l, nbad, nskip, ndiag, ndrift, bad, cnt
 Obs == ndJsonDeserialize("obs.ndjson")
-Init == l = 1 /\ nbad = 0 /\ nskip = 0 /\ ndiag = 0 /\ bad = <<>> /\ cnt = <<>>
+Init == l = 1 /\ nbad = 0 /\ nskip = 0 /\ ndiag = 0 /\ ndrift = 0 /\ bad = <<>> /\ cnt = <<>>
 Walk(r, c, sg, have) ==
   /\ nskip' = nskip + (IF Undef(r) THEN 1 ELSE 0)
   /\ ndiag' = ndiag + (IF Diag(r) THEN 1 ELSE 0)
+  /\ ndrift' = ndrift + (IF Drift(r) THEN 1 ELSE 0)
   /\ nbad' = nbad + (IF c = "" THEN 0 ELSE 1)
   /\ cnt' = IF c = "" THEN cnt
             ELSE IF have = {} THEN Append(cnt, [sig |-> sg, count |-> 1])
@@ -37,7 +43,7 @@ WalkC(r, c) == WalkS(r, c, Sig(r, c))
 Next == l <= Len(Obs) /\ l' = l + 1 /\ WalkC(Obs[l], RecCause(Obs[l]))
 Done == l = Len(Obs) + 1 =>
           /\ ndJsonSerialize("stats.ndjson", <<[n |-> Len(Obs), nbad |-> nbad, ref_undefined |-> nskip,
-                                               abbreviate_fits_but_abbreviated |-> ndiag, sigs |-> cnt]>>)
+                                               abbreviate_fits_but_abbreviated |-> ndiag, model_drift |-> ndrift, sigs |-> cnt]>>)
           /\ ndJsonSerialize("bad.ndjson", bad)
 Consumed == TLCGet("stats").diameter - 1 = Len(Obs)
 =============================================================================
